@@ -429,3 +429,238 @@ def c08_5(I, shape):
         # Python_RSAKey asserts (n and e) or (not n and not e)
         I.check(AND(pk[1] != 0, pk[2] != 0),
                 "rsa-key-constructed-only-from-non-zero-n-and-e")
+
+
+# ---------------------------------------------------------------------------
+# C08.4  certificate decompression is bounded by the declared length
+# ---------------------------------------------------------------------------
+import tlslite.messages as msgmod
+from tlslite.constants import CertificateCompressionAlgorithm as CCA
+from tlslite.errors import TLSIllegalParameterException as _IllegalParam
+
+
+class ZlibModel(object):
+    """stands for the module zlib inside messages.py: records how much output
+    each call may produce.  decompress(data, wbits, bufsize) is UNBOUNDED
+    (bufsize is only the initial buffer); decompressobj().decompress(data,
+    max_length) produces at most max_length bytes when max_length > 0."""
+    error = ValueError
+
+    def __init__(self, I):
+        self.I = I
+        self.calls = []
+
+    def _out(self):
+        n = self.I.pick([0, 1, 5], "produced")
+        return bytes(bytearray(range(n)))
+
+    def decompress(self, data, wbits=15, bufsize=16384):
+        self.calls.append(("unbounded", None))
+        return self._out()
+
+    def compress(self, data, *a):
+        return bytes(data)
+
+    def decompressobj(self, wbits=15):
+        outer = self
+
+        class _D(object):
+            unconsumed_tail = b""
+            eof = True
+
+            def decompress(self, data, max_length=0):
+                outer.calls.append(("bounded", max_length))
+                if outer.I.pick([False, True], "input_left_over"):
+                    self.unconsumed_tail = b"x"
+                    self.eof = False
+                return outer._out()
+        return _D()
+
+
+ZLIB = [None]
+
+
+class _ZlibProxy(object):
+    def __getattr__(self, name):
+        return getattr(ZLIB[0], name)
+
+
+def _unbounded_impl(data, *limit):
+    ZLIB[0].calls.append(("bounded", limit[0]) if limit
+                         else ("unbounded", None))
+    return ZLIB[0]._out()
+
+
+def _decomp_patches(shape):
+    impls = dict(msgmod.compression_algo_impls)
+    return ([], [(msgmod, "zlib", _ZlibProxy()),
+                 (msgmod, "compression_algo_impls", impls)])
+
+
+@obligation("C08.4", lambda tier: [dict(impl=i) for i in
+                                   ("as-installed", "all-with-limit")],
+            functions=["tlslite.messages:CompressedCertificate._decompress"],
+            assumes=["zlib (C library) is replaced by a contract model: "
+                     "decompress(data, wbits, bufsize) may produce any "
+                     "amount of output, decompressobj().decompress(data, n) "
+                     "at most n bytes for n > 0 and any amount for n = 0; "
+                     "brotli / zstd entries as installed, or (second shape) "
+                     "present and accepting a limit; the algorithm id is a "
+                     "symbolic 16-bit value, the declared uncompressed "
+                     "length a symbolic 24-bit value"],
+            patches=_decomp_patches, max_paths=2000)
+def c08_4(I, shape):
+    """whatever algorithm and length the peer declares, no decompressor is
+    asked for more output than the declared uncompressed length (so memory
+    use is bounded by a field of the message, not by the compression
+    ratio), and a result is returned only if it has exactly that length"""
+    ZLIB[0] = ZlibModel(I)
+    if shape["impl"] == "all-with-limit":
+        msgmod.compression_algo_impls.update(
+            brotli_decompress=_unbounded_impl, brotli_accepts_limit=True,
+            zstd_decompress=_unbounded_impl, zstd_accepts_limit=True)
+    algo = I.uint(16, "compression_algo")
+    declared = I.uint(24, "uncompressed_length")
+    cc = msgmod.CompressedCertificate(CertificateType.x509)
+    cc.compression_algo = algo
+    try:
+        out = cc._decompress(bytearray(b"\x01\x02\x03"), declared)
+        exc = None
+    except (SyntaxError, _IllegalParam) as e:
+        out, exc = None, e
+    except (PathAbort, Unsupported):
+        raise
+    except Exception as e:
+        I.fail("_decompress raised %s" % type(e).__name__, detail=repr(e))
+        return
+    for kind, limit in ZLIB[0].calls:
+        I.check(kind == "bounded", "no-unbounded-decompressor-call",
+                detail=lambda: dict(calls=[k for k, _ in ZLIB[0].calls]))
+        if kind == "bounded":
+            I.check(AND(limit > 0, limit <= declared),
+                    "output-limit-positive-and-at-most-the-declared-length")
+    if exc is None:
+        I.check(len(out) == declared, "result-has-the-declared-length")
+        I.check(len(ZLIB[0].calls) == 1, "one-decompressor-call")
+
+
+# ---------------------------------------------------------------------------
+# C08.6  a key-holding peer sends arbitrary bytes under a valid MAC / tag
+# ---------------------------------------------------------------------------
+from models.fixtures import (rl_proxies, make_layer, install_state, drain,
+                             MODES)
+from tlslite.errors import (TLSBadRecordMAC, TLSDecryptionFailed,
+                            TLSRecordOverflow, TLSUnexpectedMessage,
+                            TLSIllegalParameterException as _TIP)
+from tlslite.constants import ContentType as _CT
+
+_RL_REJECT = (TLSBadRecordMAC, TLSDecryptionFailed, TLSRecordOverflow,
+              TLSUnexpectedMessage, _TIP, TLSAbruptCloseError)
+
+
+def _shapes_c08_6(tier):
+    out = []
+    for ver in ((3, 1), (3, 2), (3, 3)):
+        for block, mac in ((16, 20), (8, 20), (16, 32)):
+            for nct in (0, block, 2 * block, block + 3):
+                data_bytes = nct - (block if ver >= (3, 2) and nct >= block
+                                    else 0)
+                if data_bytes >= 16 and data_bytes % block == 0:
+                    # a whole block of 16 arbitrary data bytes multiplies
+                    # the padding-check paths (2^k) beyond the budgets
+                    continue
+                if nct == 2 * block and tier == "quick":
+                    continue
+                out.append(dict(mode="cbc-etm", version=list(ver),
+                                block=block, mac=mac, n=nct))
+    for n in (0, 1, 2, 17):
+        out.append(dict(mode="tls13", version=[3, 4], block=None, mac=0,
+                        n=n))
+        out.append(dict(mode="aead-explicit", version=[3, 3], block=None,
+                        mac=0, n=n))
+        out.append(dict(mode="aead-xor", version=[3, 3], block=None, mac=0,
+                        n=n))
+    return out
+
+
+@obligation("C08.6", _shapes_c08_6,
+            functions=["tlslite.recordlayer:RecordLayer.recvRecord",
+                       "tlslite.recordlayer:RecordLayer._macThenDecrypt",
+                       "tlslite.recordlayer:RecordLayer._decryptAndUnseal",
+                       "tlslite.recordlayer:RecordLayer._decryptThenMAC",
+                       "tlslite.recordlayer:RecordLayer._tls13_de_pad"],
+            assumes=["the sender holds the keys: encrypt-then-MAC records "
+                     "carry a VALID MAC over an arbitrary symbolic "
+                     "ciphertext of the enumerated length (0, 1, 2, 3 "
+                     "blocks, a non-multiple); AEAD records carry a valid "
+                     "tag over an arbitrary symbolic plaintext (TLS 1.3: "
+                     "inner plaintext, possibly without a content type); "
+                     "cipher/MAC models as in C02.1"],
+            patches=lambda s: (rl_proxies(), []), max_paths=60000,
+            timeout=(600, 1800))
+def c08_6(I, shape):
+    """a record that authenticates but is otherwise arbitrary ends in data or
+    in one of the record layer's TLS exceptions - never IndexError or
+    another raw exception"""
+    mode = shape["mode"]
+    version = tuple(shape["version"])
+    block = shape["block"] or 16
+    rs, rcv = make_layer(version, mode)
+    ss, snd = make_layer(version, mode)
+    nonce = None
+    if MODES[mode][0] == "aead":
+        nonce = I.bytes(4 if mode == "aead-explicit" else 12, "fixednonce")
+    install_state(rcv, rcv._readState, mode, "k", shape["mac"], block,
+                  fixed_nonce=nonce, stateless=True)
+    install_state(snd, snd._writeState, mode, "k", shape["mac"], block,
+                  fixed_nonce=nonce, stateless=True)
+    seq = I.uint(16, "seq")
+    rcv._readState.seqnum = seq
+    snd._writeState.seqnum = seq
+    ctype = I.byte("ctype")
+    assume(OR([ctype == t for t in _CT.all]))
+    n = shape["n"]
+    if mode == "cbc-etm":
+        ct = I.bytes(n, "ciphertext")
+        mac = rcv._readState.macContext.copy()
+        seqb = [0] * 6 + [(seq >> 8) & 0xff, seq & 0xff]
+        mac.update(seqb)
+        mac.update([ctype])
+        mac.update([version[0], version[1]])
+        mac.update([n >> 8, n & 0xff])
+        mac.update(list(ct))
+        body = list(ct) + list(mac.digest())
+        rcv.encryptThenMAC = True
+        wire = [ctype, version[0], version[1], len(body) >> 8,
+                len(body) & 0xff] + body
+    else:
+        pt = I.bytes(n, "plaintext")
+        if mode == "tls13":
+            assume(ctype != _CT.change_cipher_spec)
+            before = len(ss.out)
+            # seal the arbitrary inner plaintext directly
+            snd._recordSocket.version = (3, 3)
+            buf = snd._encryptThenSeal(newbuf(list(pt)),
+                                       _CT.application_data)
+            wire = [_CT.application_data, 3, 3, len(buf) >> 8,
+                    len(buf) & 0xff] + list(buf)
+        else:
+            buf = snd._encryptThenSeal(newbuf(list(pt)), ctype)
+            wire = [ctype, version[0], version[1], len(buf) >> 8,
+                    len(buf) & 0xff] + list(buf)
+    rs.inp = newbuf(wire)
+    try:
+        res = drain(rcv.recvRecord())
+    except _RL_REJECT:
+        I.cover("rejected")
+        return
+    except (PathAbort, Unsupported):
+        raise
+    except Exception as e:
+        I.fail("recvRecord raised %s on an authenticated record"
+               % type(e).__name__, detail=repr(e)[:200])
+        return
+    I.cover("delivered")
+    hdr, parser = res
+    I.check(AND(parser.index >= 0, parser.index <= len(parser.bytes)),
+            "index-within-buffer")
